@@ -769,3 +769,18 @@ fn sieve_block_poly(s: &SieveMPQS, pol: &Poly, roots: [&[u32]; 2], st: &mut siev
         s.rels.write().unwrap().add(rel, pq);
     }
 }
+
+/// Access to private items for the verification harness.
+#[cfg(yamaquasi_verif)]
+pub mod verif_access {
+    use super::*;
+
+    /// (interval size, large prime multiplier, double large prime multiplier)
+    pub fn params(n: &Uint) -> (i64, u64, u64) {
+        (
+            mpqs_interval_size(n),
+            large_prime_factor(n),
+            double_large_factor(n),
+        )
+    }
+}
